@@ -324,28 +324,53 @@ def _probe_orbax_cut():
 _CONV = {}
 
 
+def _probe_tmp_name(root, step):
+  """Name (without the prefix) of what an interrupted legacy save of `step` leaves behind besides final names: the
+  save is cut before each of its first mutating calls in turn until a leftover shows up."""
+  best = None
+  for k in (4, 3, 5, 6, 2):
+    d = tempfile.mkdtemp(dir=root)
+    try:
+      _set_backend('legacy')
+      try:
+        with FsHook(crash_at=k):
+          cp.save_checkpoint(d, tree_of(1), step, prefix='pfx_', keep=1)
+      except SimulatedCrash:
+        pass
+      except Exception:
+        continue
+      names = [n for n in os.listdir(d) if n.startswith('pfx_') and n != f'pfx_{step}']
+      if len(names) == 1:
+        best = names[0][len('pfx_') :]
+        break
+    finally:
+      shutil.rmtree(d, ignore_errors=True)
+  return best
+
+
 def conventions(root):
-  """The legacy temp-file name suffix and Orbax's temp-dir marker, read from the running code."""
+  """Incidental naming conventions, read from the running code (DESIGN §7): Orbax's temp-dir marker, and the name of the
+  legacy temp file as a template — probed with two different steps, so a per-step temp name is recognised as such.
+  `tmp_name_for(literal)` gives the name without the prefix."""
   if _CONV:
     return _CONV
   _CONV['orbax_suffix'] = ocp.utils.TMP_DIR_SUFFIX
-  d = tempfile.mkdtemp(dir=root)
-  try:
-    _set_backend('legacy')
-    try:
-      with FsHook(crash_at=4):
-        cp.save_checkpoint(d, tree_of(1), 1, prefix='pfx_', keep=1)
-    except SimulatedCrash:
-      pass
-    names = [n for n in os.listdir(d) if n.startswith('pfx_')]
-    if len(names) != 1 or names[0] == 'pfx_1':
-      _CONV['legacy_tmp'] = 'tmp'
-      _CONV['legacy_tmp_probe_failed'] = True
-    else:
-      _CONV['legacy_tmp'] = names[0][len('pfx_') :]
-  finally:
-    shutil.rmtree(d, ignore_errors=True)
+  a, b = _probe_tmp_name(root, 17), _probe_tmp_name(root, 23)
+  if a is None or b is None:
+    _CONV['legacy_tmp_template'] = 'tmp'
+    _CONV['legacy_tmp_probe_failed'] = True
+  elif a == b:
+    _CONV['legacy_tmp_template'] = a
+  elif a.replace('17', '{step}') == b.replace('23', '{step}'):
+    _CONV['legacy_tmp_template'] = a.replace('17', '{step}')
+  else:
+    _CONV['legacy_tmp_template'] = a
+    _CONV['legacy_tmp_probe_failed'] = True
   return _CONV
+
+
+def tmp_name_for(lit):
+  return _CONV['legacy_tmp_template'].replace('{step}', lit)
 
 
 def _set_backend(backend):
@@ -428,11 +453,15 @@ def classify_path(path):
 
 
 def observe(h: Hist, d):
-  """Canonical directory: {'ckpts': [[scaled, content]] ascending, 'otmps': [scaled] ascending, 'tmp': content|None,
-  'other': [names that match nothing]}."""
+  """Canonical directory, classified by meaning, not by a fixed spelling:
+  'ckpts'  final names `<prefix><step literal of this history>` with their content class, ascending by value;
+  'otmps'  Orbax temp dirs (the marker is read from orbax), ascending;
+  'tmp'    the legacy temp file (name template probed from the code; with a per-step template: of any step) — content
+           class, or None;
+  'other'  every other name in the directory, whatever it is (nothing of the property's world should be here)."""
   conv = _CONV
-  ck, ot, other = [], [], []
-  tmp = None
+  ck, ot, other, tmps = [], [], [], []
+  tmp_names = {tmp_name_for(lit) for lit in h.scaled}
   try:
     names = os.listdir(d)
   except FileNotFoundError:
@@ -442,20 +471,19 @@ def observe(h: Hist, d):
       other.append(n)
       continue
     rest = n[len(h.prefix) :]
-    if rest == conv['legacy_tmp']:
-      tmp = classify_path(os.path.join(d, n))
-    elif conv['orbax_suffix'] in rest:
-      lit = rest[: rest.index(conv['orbax_suffix'])]
-      if lit in h.scaled:
-        ot.append(h.scaled[lit])
-      else:
-        other.append(n)
-    elif rest in h.scaled:
+    if rest in h.scaled:
       ck.append([h.scaled[rest], classify_path(os.path.join(d, n))])
+    elif conv['orbax_suffix'] in rest and rest[: rest.index(conv['orbax_suffix'])] in h.scaled:
+      ot.append(h.scaled[rest[: rest.index(conv['orbax_suffix'])]])
+    elif rest in tmp_names:
+      tmps.append(n)
     else:
       other.append(n)
   ck.sort()
   ot.sort()
+  tmps.sort()
+  tmp = classify_path(os.path.join(d, tmps[0])) if tmps else None
+  other += tmps[1:]  # the model knows one legacy temp file; further ones are reported as they are
   return {'ckpts': [[str(s), c] for s, c in ck], 'otmps': [str(s) for s in ot], 'tmp': tmp, 'other': sorted(other)}
 
 
@@ -779,6 +807,9 @@ def _oracle_completed(ctx, h, d, op, before_steps, obs, api, saved, case, judge_
   if any(c < 0 for _, c in obs['ckpts']):
     ctx.violation('listed-checkpoint-incomplete' + tag, f'after a completed save a listed checkpoint is not restorable: {obs}', case)
     return False
+  if not isinstance(api['listing'], list):
+    ctx.violation('available-steps-raises' + tag, f'available_steps raises {api["listing"]} on directory {obs}', case)
+    return False
   if api['listing'] != [s for s, _ in obs['ckpts']]:
     ctx.violation('available-steps-wrong' + tag, f'available_steps gives {api["listing"]} for directory {obs}', case)
     return False
@@ -880,8 +911,10 @@ def _explore_crashes(ctx, root, h, base, i, op, n_ops, pre_obs, pre_api, saved, 
           if not same_dir(mc, obs):
             ctx.disagreements_checked += 1
             ctx.violation('model-mismatch-crash', f'directory after crash {label}: impl {obs}, model (after {midx} steps of {m["steps"]}) {mc}', ccase, concrete=False)
-      # recovery: retry the interrupted call, then a later step
-      if ok:
+      # recovery: retry the interrupted call, then a later step (also after a failed read oracle, unless the failure is
+      # the known in-place deletion of the Orbax back-end: "saving can continue" is a clause of its own)
+      in_place = h.backend == 'orbax' and op['overwrite'] and any(int(s) >= int(new_entry[0]) for s, _ in pre_obs['ckpts'])
+      if ok or not in_place:
         _recover(ctx, root, h, work, op, obs, saved, ccase, cont_reqs, records)
     finally:
       shutil.rmtree(work, ignore_errors=True)
@@ -891,8 +924,9 @@ def _explore_crashes(ctx, root, h, base, i, op, n_ops, pre_obs, pre_api, saved, 
 
 
 def _oracle_crashed(ctx, h, op, pre_obs, obs, api, prev_latest, new_entry, case):
-  """After an interrupted save: latest/restore give a complete checkpoint, the previous latest or the new one;
-  no temporary name is listed."""
+  """After an interrupted save, whatever the implementation calls its files: `available_steps` answers (does not raise)
+  with committed steps only; `latest_checkpoint` names the previous latest or the new step; `restore_checkpoint`
+  returns the complete payload saved for it.  Each clause is judged on its own."""
   s_new = int(new_entry[0])
   in_place = h.backend == 'orbax' and op['overwrite'] and any(int(s) >= s_new for s, _ in pre_obs['ckpts'])
 
@@ -900,27 +934,33 @@ def _oracle_crashed(ctx, h, op, pre_obs, obs, api, prev_latest, new_entry, case)
     # known finding F15: the Orbax back-end deletes directories at or above the saved step in place
     return 'orbax-overwrite-in-place-delete' if in_place else k
 
+  ok = True
   listed = api['listing']
   finals = [s for s, _ in obs['ckpts']]
-  if not isinstance(listed, list) or any(not x.lstrip('-').isdigit() for x in listed) or listed != finals:
-    ctx.violation('crash-listing-shows-temp', f'after the crash available_steps gives {listed}; final names present: {finals} (dir {obs})', case)
+  if not isinstance(listed, list):
+    ctx.violation(key('crash-available-steps-raises'), f'after the crash available_steps raises {listed} (dir {obs})', case)
+    ok = False
+  elif any(not x.lstrip('-').isdigit() for x in listed) or listed != finals:
+    ctx.violation(key('crash-listing-shows-temp'), f'after the crash available_steps gives {listed}; committed names present: {finals} (dir {obs})', case)
+    ok = False
+  lat, rest = api['latest'], api['restore']
+  allowed = [e for e in (prev_latest, new_entry) if e is not None]
+  if isinstance(lat, str) and not lat.lstrip('-').isdigit():
+    ctx.violation(key('crash-latest-is-temp'), f'after the crash latest_checkpoint is {lat}, not the name of a saved step; restore_checkpoint gives {rest} (dir {obs})', case)
     return False
-  lat = api['latest']
   if lat is None:
     if prev_latest is not None:
       ctx.violation(key('crash-lost-latest'), f'after the crash there is no latest checkpoint; before the call it was {prev_latest}', case)
       return False
-    if api['restore'] is not None:
-      ctx.violation('crash-restore-not-complete', f'restore_checkpoint returned {api["restore"]} from a directory without checkpoints', case)
+    if rest is not None:
+      ctx.violation(key('crash-restore-not-complete'), f'restore_checkpoint returned {rest} from a directory without checkpoints', case)
       return False
-    return True
-  allowed = [e for e in (prev_latest, new_entry) if e is not None]
-  got = [lat, api['restore']]
-  if got not in [[e[0], e[1]] for e in allowed]:
-    kind = 'crash-restore-not-complete' if api['restore'] == 'Corrupt' or not isinstance(api['restore'], int) else 'crash-latest-neither-old-nor-new'
-    ctx.violation(key(kind), f'after the crash latest={lat} restore={api["restore"]}; allowed: previous latest {prev_latest} or new {new_entry} (dir {obs})', case)
+    return ok
+  if [lat, rest] not in [[e[0], e[1]] for e in allowed]:
+    kind = 'crash-restore-not-complete' if not isinstance(rest, int) else 'crash-latest-neither-old-nor-new'
+    ctx.violation(key(kind), f'after the crash latest={lat} restore={rest}; allowed: previous latest {prev_latest} or new {new_entry} (dir {obs})', case)
     return False
-  return True
+  return ok
 
 
 def _recover(ctx, root, h, crashed_dir, op, obs, saved, case, cont_reqs, records):
@@ -947,7 +987,7 @@ def _recover(ctx, root, h, crashed_dir, op, obs, saved, case, cont_reqs, records
       return
   else:
     if r[0] != 'ok':
-      ctx.violation('retry-after-crash', f'retrying the interrupted save raised {r}; crashed dir {obs}', case)
+      ctx.violation('crash-continue-raises-retry', f'retrying the interrupted save raised {r}; crashed dir {obs}', case)
       return
     saved2[op['step']] = op['payload']
     torn_before = any(c < 0 for _, c in obs['ckpts'])
@@ -961,7 +1001,7 @@ def _recover(ctx, root, h, crashed_dir, op, obs, saved, case, cont_reqs, records
   a2 = read_api(h, crashed_dir)
   rec.update({'later': (r2[0] if r2[0] != 'err' else r2[1]), 'after_later': o2, 'after_later_api': a2})
   if r2[0] != 'ok':
-    ctx.violation('later-save-after-crash', f'saving a later step after the crash raised {r2}; dir {o1}', case)
+    ctx.violation('crash-continue-raises-later-step', f'saving a later step after the crash raised {r2}; dir {o1}', case)
     return
   saved2[lop['step']] = lop['payload']
   _oracle_completed(ctx, h, crashed_dir, lop, before2, o2, a2, saved2, case, judge_policy=True, tag='-after-crash')
@@ -1062,9 +1102,7 @@ def run_leftover_case(ctx, root, drv, c):
     if r[0] != 'crash':
       raise InfraError(f'could not produce a leftover temp name: {r}')
     start = observe(h, d)
-    if not start['otmps'] and start['tmp'] is None:
-      raise InfraError(f'the interrupted save left no temp name: {start}')
-    ctx.count('leftover', c['backend'] + ('-otmp' if start['otmps'] else '-tmp') + '>' + h2.backend)
+    ctx.count('leftover', c['backend'] + ('-otmp' if start['otmps'] else '-tmp' if start['tmp'] is not None else '-other' if start['other'] else '-nothing') + '>' + h2.backend)
     outs = drv.run([('history', [[h2.cfg(op) for op in c['ops']], canon_to_model(start)])])
     if outs[0][0] != 'ok':
       raise InfraError(f'driver: {outs[0]}')
@@ -1137,7 +1175,8 @@ def check_natural_sort(ctx, rng, n_lists):
     names = [prefix + l for l in lits]
     extra = []
     if rng.random() < 0.4:
-      extra.append(prefix + conv['legacy_tmp'])
+      if '{step}' not in conv['legacy_tmp_template']:
+        extra.append(prefix + conv['legacy_tmp_template'])
     dirp = rng.choice(['/tmp/x', '/a1/b-2/c', 'rel', '/tmp/tmpk3_9z'])
     paths = [os.path.join(dirp, n) for n in names + extra]
     rng.shuffle(paths)
@@ -1557,17 +1596,17 @@ def run(ctx):
 
     iomodes = ['DEFAULT', 'DEFAULT', 'TF'] if _TF_AVAILABLE else ['DEFAULT']
     # (i)+(ii) legacy: histories with every crash point
-    n_leg = 40 if not thorough else 700
+    n_leg = 32 if not thorough else 700
     hists = [gen_history(rng, 'legacy', rng.choice(iomodes), rng.randrange(4, 8), crash=True) for _ in range(n_leg)]
-    _run_histories(ctx, root, drv, hists, budget(30), 20)
+    _run_histories(ctx, root, drv, hists, budget(26), 14)
     mark('legacy+crash')
     # (i)+(ii) orbax (default back-end)
-    n_orb = 10 if not thorough else 110
+    n_orb = 8 if not thorough else 110
     hists3 = [gen_history(rng, 'orbax', rng.choice(iomodes), rng.randrange(4, 7), crash=(k % 2 == 0)) for k in range(n_orb)]
-    _run_histories(ctx, root, drv, hists3, budget(48), 4)
+    _run_histories(ctx, root, drv, hists3, budget(42), 4)
     mark('orbax')
     # leftovers of interrupted saves
-    lcases = run_leftover_cases(ctx, root, drv, rng, 10 if not thorough else 120, budget(55), 5)
+    lcases = run_leftover_cases(ctx, root, drv, rng, 10 if not thorough else 120, budget(48), 5)
     mark('leftover')
     if thorough:
       run_orbax_kill_cases(ctx, root, drv, rng, 10)
@@ -1583,7 +1622,7 @@ def run(ctx):
       backend = 'legacy' if k % 8 else 'orbax'
       hj = gen_history(rng, backend, rng.choice(iomodes), rng.randrange(3, 6) if backend == 'legacy' else 3, crash=False)
       budgets = [rng.randrange(0, 7) for _ in hj['ops']]
-      if not thorough and k >= 12 and ctx.elapsed() > 62:
+      if not thorough and k >= 12 and ctx.elapsed() > 54:
         ctx.count('time_budget', 'async_skipped')
         continue
       run_async_case(ctx, root, drv, hj, budgets)
@@ -1591,7 +1630,7 @@ def run(ctx):
     # (i) more legacy histories without crash exploration (cheap, long)
     n_leg2 = 100 if not thorough else 1500
     hists2 = [gen_history(rng, 'legacy', rng.choice(iomodes), rng.randrange(6, 14), crash=False) for _ in range(n_leg2)]
-    _run_histories(ctx, root, drv, hists2, budget(68), 20)
+    _run_histories(ctx, root, drv, hists2, budget(60), 20)
     mark('legacy-long')
     check_policy_pure(ctx, drv, rng, 2000 if not thorough else 40000)
     mark('policy')
@@ -1604,7 +1643,7 @@ def run(ctx):
     res = ctx.dist.get('result', {})
     n_ok, n_all = res.get('ok', 0), sum(res.values())
     n_crash = sum(ctx.dist.get('crash_point', {}).values())
-    if n_all == 0 or n_ok * 10 < n_all * 4 or n_crash < 200 or not ctx.dist.get('leftover'):
+    if not ctx.violations and (n_all == 0 or n_ok * 10 < n_all * 4 or n_crash < 200 or not ctx.dist.get('leftover')):
       raise InfraError(f'generator degenerated: {n_ok}/{n_all} saves completed, {n_crash} crash cases, leftover {ctx.dist.get("leftover")}')
     ctx.extra['driver_calls'] = drv.calls
     ctx.extra['exhaustive'] = False
@@ -1647,7 +1686,7 @@ def _run_case(ctx, root, drv, obj):
         if rest.startswith(pf):
           rest = rest[len(pf) :]
           break
-      if rest == _CONV['legacy_tmp']:
+      if rest == _CONV['legacy_tmp_template']:
         return (1, Fraction(0))
       return (0, Fraction(int(rest)) if rest.lstrip('-').isdigit() else Fraction(float(rest)))
 
